@@ -817,7 +817,9 @@ def main(tier):
             sel = {"all": [hand] + bmods + gmods, "main": [hand] + bmods + gmods[:2], "boundary": bmods,
                    "lite": [U.lite_module(m) for m in bmods]}[which]
             sel = [dict(m) for m in sel]
-            xs = [dict(xm), dict(wm), dict(um), dict(pm)] if which in ("all", "main") else []
+            xs = [dict(xm), dict(wm), dict(pm)] if which in ("all", "main") else []
+            if tag == "cn":
+                xs.append(dict(um))          # strings do not depend on -fwide-types
             if tag in ALPHA_FLAGSETS:
                 xs.append(dict(am))
             tick("build " + tag)
